@@ -32,7 +32,17 @@ def gen_trailing_doc(rng):
         elif k == 7: parts.append("Term %s\n: Def %s" % (sp(), sp()))
         else: parts.append("%s[^n]\n\n[^n]: note %s" % (w(), sp()))
     if rng.random() < 0.6: parts.insert(rng.randrange(len(parts) + 1), "{{TOC}}")
-    return "\n\n".join(parts) + "\n"
+    end = "\n"
+    if rng.random() < 0.5:
+        # a definition as the last thing in the text, its content ending in a special character - with and without a final line ending
+        d = rng.randrange(5)
+        if d == 0: parts.insert(0, "The AB tool."); parts.append("[>AB]: Abbreviation %s%s" % (w(), sp()))
+        elif d == 1: parts.insert(0, "A [?term] here."); parts.append("[?term]: glossary %s%s" % (w(), sp()))
+        elif d == 2: parts.insert(0, "Cited [#c1] here."); parts.append("[#c1]: Author %s%s" % (w(), sp()))
+        elif d == 3: parts.insert(0, "A [link][r1] here."); parts.append("[r1]: http://e.com/ \"title %s%s\"" % (w(), sp()))
+        else: parts.insert(0, "Noted[^z] here."); parts.append("[^z]: note %s%s" % (w(), sp()))
+        end = rng.choice(["\n", "", "", "\n\n"])
+    return "\n\n".join(parts) + end
 
 
 def gen_utf8_doc(rng):
